@@ -160,7 +160,8 @@ fn run_history(rep: &mut Report, u: &mut U, first: &Address, history: &str, tran
         holders.push(next);
     }
     // the role must still be with the same holder after a long time without any call
-    if u.advance(1_300_000) && getter(u) != *holders.last().unwrap() {
+    // (1.3 M ledgers, then on to the end of the lifetime of every temporary entry there is)
+    if u.advance(1_300_000) && u.advance(EON) && getter(u) != *holders.last().unwrap() {
         rep.violation(&format!("role-changed-by-passing-time:{}", what), format!("history {}", history));
         return None;
     }
